@@ -311,17 +311,45 @@ def r3_wrapper(rep, src):
         rep.fail('C17.R3', f.site + '.setter', 'writes field.name through to_str; None deletes', bad[0], where=f.where)
     else:
         rep.ok('C17.R3', f.site + '.setter', 'writes field.name through to_str; None deletes', '%d cases' % n)
-    # restricted keys are compared case-insensitively: registration and test use the same normalisation
+    # restricted keys are compared case-insensitively: every element that flows into the set of restricted names and every
+    # key tested against it is lower-cased (elements: comprehension / generator elements, append/add arguments)
     ci = src.func('deb822:RestrictedWrapper._class_init')
-    si = src.func('deb822:RestrictedWrapper.__setitem__')
-    reg = [norm(c.args[0]) for c in ast.walk(ci.node) if isinstance(c, ast.Call) and isinstance(c.func, ast.Attribute) and c.func.attr in ('append', 'add') and c.args]
-    tests = [norm(c.left) for c in ast.walk(si.node) if isinstance(c, ast.Compare) and isinstance(c.ops[0], (ast.In, ast.NotIn)) and 'restricted' in norm(c.comparators[0])]
-    lowered_reg = any(r_.endswith('.lower()') for r_ in reg)
-    lowered_test = any(t_.endswith('.lower()') for t_ in tests)
-    if reg and tests and lowered_reg == lowered_test and lowered_reg:
-        rep.ok('C17.R3', ci.site, 'restricted keys compared case-insensitively', 'lower() on registration and on test', nontrivial=False)
+    mod_ = src.mod('deb822')
+    cls_funcs = [fn for q, fn in mod_.funcs.items() if q.startswith('RestrictedWrapper.')]
+    elems, tests = [], []
+    def flows(v, lists):
+        """element expressions of a collection-valued expression; names of local collections it is built from"""
+        if isinstance(v, (ast.GeneratorExp, ast.ListComp, ast.SetComp)):
+            return [v.elt]
+        if isinstance(v, ast.Call) and isinstance(v.func, ast.Name) and v.func.id in ('frozenset', 'set', 'list', 'tuple', 'sorted') and len(v.args) == 1:
+            return flows(v.args[0], lists)
+        if isinstance(v, ast.Name):
+            lists.add(v.id)
+            return []
+        if isinstance(v, (ast.List, ast.Tuple, ast.Set)):
+            return list(v.elts)
+        return []
+    for fn in cls_funcs:
+        lists = set()
+        for n_ in ast.walk(fn.node):
+            if isinstance(n_, ast.Assign) and any('restricted_fields' in norm(t_) for t_ in n_.targets):
+                elems.extend(flows(n_.value, lists))
+        for n_ in ast.walk(fn.node):
+            if isinstance(n_, ast.Assign) and isinstance(n_.targets[0], ast.Name) and n_.targets[0].id in lists:
+                elems.extend(flows(n_.value, set()))
+            if isinstance(n_, ast.Call) and isinstance(n_.func, ast.Attribute) and n_.func.attr in ('append', 'add') and isinstance(n_.func.value, ast.Name) \
+                    and n_.func.value.id in lists and n_.args:
+                elems.append(n_.args[0])
+            if isinstance(n_, ast.Compare) and len(n_.ops) == 1 and isinstance(n_.ops[0], (ast.In, ast.NotIn)) and 'restricted_fields' in norm(n_.comparators[0]):
+                tests.append(n_.left)
+
+    def lowered(e):
+        return isinstance(e, ast.Call) and isinstance(e.func, ast.Attribute) and e.func.attr in ('lower', 'casefold') and not e.args
+    if elems and tests and all(lowered(e) for e in elems) and all(lowered(t_) for t_ in tests):
+        rep.ok('C17.R3', ci.site, 'restricted keys compared case-insensitively', '%d registered element expression(s) and %d test(s), all lower-cased' % (len(elems), len(tests)), nontrivial=False)
     else:
-        rep.fail('C17.R3', ci.site, 'restricted keys compared case-insensitively', 'restricted field names are not lower-cased on both sides (registered: %s, tested: %s)' % (reg, tests), where=ci.where)
+        rep.fail('C17.R3', ci.site, 'restricted keys compared case-insensitively', 'restricted field names are not lower-cased on both sides (registered: %s, tested: %s)'
+                 % ([norm(e) for e in elems], [norm(t_) for t_ in tests]), where=ci.where)
 
 
 def r4_document(rep, src):
